@@ -225,12 +225,19 @@ class HarnessError(Exception):
     pass
 
 
+def reset_world():
+    """every execution of a plan starts from the state of a freshly started process (seams installed, library state reset)"""
+    from . import env
+    env.import_kappadata()
+    sp = sys.modules.get("simkit.simproc")
+    if sp is not None:
+        sp.reset_entropy()
+
+
 def safe_execute(spec, plan):
     """execute; exceptions that escape the property's own classification are harness errors"""
     try:
-        sp = sys.modules.get("simkit.simproc")
-        if sp is not None:
-            sp.reset_entropy()
+        reset_world()
         out = spec.execute(plan)
     except HarnessError:
         raise
